@@ -109,6 +109,15 @@ type Params struct {
 	// in the live-object probe, and wherever the harness calls CheckReestHere)
 	// field by field against the explorer's own derivation: see reest.go.
 	ReestMonitor bool `json:"reest_monitor,omitempty"`
+	// SplitRevoke makes the answer to a commitment_signed a step of its own: the
+	// delivery runs ReceiveNewCommitment only and the receiver then owes a
+	// revoke_and_ack, sent by the action `X.rev`. `X.rev` is listed first (the eager
+	// default is lnd's link: revoke at once), but X may first sign, add, resolve or
+	// take deliveries - e.g. send its own commitment_signed BEFORE its
+	// revoke_and_ack, a legal order inside the one-unacked-commitment window that
+	// lnd's link never produces but lnwallet's API and other implementations allow.
+	// Only for worlds without cuts (the reconnect model assumes the link's order).
+	SplitRevoke bool `json:"split_revoke,omitempty"`
 	// ByzRevocation adds the terminal action `byz>X` wherever the head of X's wire
 	// is a revoke_and_ack: X is handed a lattice of wrong revocations (byz.go).
 	ByzRevocation bool `json:"byz_revocation,omitempty"`
@@ -186,6 +195,9 @@ func (p Params) Name() string {
 	if p.Bounds != ([2]Bounds{}) {
 		name += fmt.Sprintf("/bounds%v", p.Bounds)
 	}
+	if p.SplitRevoke {
+		name += "/split"
+	}
 	return name
 }
 
@@ -229,6 +241,8 @@ type party struct {
 	needSync       bool
 	lastWasRevoke  bool
 	awaitingRevoke bool
+	owesRevoke     bool // SplitRevoke: received a commitment_signed, revoke_and_ack not sent yet
+	signedOwing    bool // SplitRevoke: already sent one commitment_signed while owing that revocation
 	// lastRevoked is the highest own height revoked so far (-1 none), and the
 	// exact message, for the C06 release monitor.
 	lastRevoked int64
@@ -697,6 +711,11 @@ func (w *World) Enabled() []string {
 		return nil
 	}
 	for i := 0; i < 2; i++ {
+		if w.pt[i].owesRevoke && !w.pt[i].needSync {
+			acts = append(acts, w.pt[i].name+".rev")
+		}
+	}
+	for i := 0; i < 2; i++ {
 		if len(w.wire[i]) > 0 {
 			acts = append(acts, "dl>"+w.pt[i].name)
 		}
@@ -706,7 +725,10 @@ func (w *World) Enabled() []string {
 		if p.needSync {
 			continue
 		}
-		if !p.awaitingRevoke && p.ch.OweCommitment() {
+		// SplitRevoke bound: at most one commitment_signed between receiving a
+		// commitment_signed and revoking (lnd reports OweCommitment again and again
+		// in that window; empty commitments would ping-pong without bound).
+		if !p.awaitingRevoke && p.ch.OweCommitment() && !(p.owesRevoke && p.signedOwing) {
 			acts = append(acts, p.name+".sign")
 		}
 	}
@@ -885,6 +907,21 @@ func (w *World) local(i int, op string) error {
 	p := w.pt[i]
 	chanID := lnwire.NewChanIDFromOutPoint(p.ch.ChannelPoint())
 	switch {
+	case op == "rev":
+		if !p.owesRevoke {
+			return fmt.Errorf("%s.rev: no revocation owed", p.name)
+		}
+		rev, _, _, err := p.ch.RevokeCurrentCommitment()
+		if err != nil {
+			if !errors.Is(err, crashdb.ErrCrashed) {
+				w.violate("revoke-failed", fmt.Sprintf("%s.RevokeCurrentCommitment failed: %v", p.name, err))
+			}
+			return nil
+		}
+		p.owesRevoke, p.signedOwing = false, false
+		p.lastWasRevoke = true
+		w.onRevoke(i, rev, false)
+		w.send(1-i, wmsg{kind: "rev", m: rev})
 	case op == "sign":
 		ncs, err := p.ch.SignNextCommitment(ctxb)
 		if err != nil {
@@ -895,6 +932,9 @@ func (w *World) local(i int, op string) error {
 			return nil
 		}
 		m := &lnwire.CommitSig{ChanID: chanID, CommitSig: ncs.CommitSig, HtlcSigs: ncs.HtlcSigs, PartialSig: ncs.PartialSig}
+		if p.owesRevoke {
+			p.signedOwing = true
+		}
 		p.awaitingRevoke = true
 		p.lastWasRevoke = false
 		p.lastSigCovered = p.unsignedSent
@@ -1048,6 +1088,10 @@ func (w *World) deliver(i int) error {
 			return nil
 		}
 		w.Stats.SigsVerified.Add(1)
+		if w.P.SplitRevoke && w.P.MaxCuts == 0 {
+			p.owesRevoke = true
+			return nil
+		}
 		rev, _, _, err := p.ch.RevokeCurrentCommitment()
 		if err != nil {
 			if !errors.Is(err, crashdb.ErrCrashed) {
@@ -1147,6 +1191,10 @@ func (w *World) Key() string {
 		// a reconnect (tracked by the explorer: lnd's in-memory LastWasRevoke is
 		// only refreshed from disk on load).
 		fmt.Fprintf(&b, "o%v s%v a%v w%v|", p.ch.OweCommitment(), p.needSync, p.awaitingRevoke, p.lastWasRevoke)
+		if p.owesRevoke {
+			// the in-memory local chain is one ahead of the durable commitment
+			fmt.Fprintf(&b, "q%d|", b2i(p.signedOwing))
+		}
 		fmt.Fprintf(&b, "u%d}", len(p.unsignedSent))
 	}
 	for i := 0; i < 2; i++ {
